@@ -50,33 +50,22 @@ class PestGrammarError(Exception):
         return None
 
     def _error_context(self, text: str, index: int) -> tuple[int, int, str, str, str]:
-        lines = text.splitlines(keepends=True)
-        cumulative_length = 0
-        target_line_index = -1
-
-        for i, line in enumerate(lines):
-            cumulative_length += len(line)
-            if index < cumulative_length:
-                target_line_index = i
-                break
-
-        if target_line_index == -1:
-            raise ValueError("index is out of bounds for the given string")
+        # An error at the end of the grammar points just past the last character.
+        index = min(max(index, 0), len(text))
+        line_start = text.rfind("\n", 0, index) + 1
+        line_end = text.find("\n", index)
+        if line_end == -1:
+            line_end = len(text)
 
         # Line number (1-based)
-        line_number = target_line_index + 1
+        line_number = text.count("\n", 0, index) + 1
         # Column number within the line
-        column_number = index - (cumulative_length - len(lines[target_line_index]))
+        column_number = index - line_start
 
-        previous_line = (
-            lines[target_line_index - 1].rstrip() if target_line_index > 0 else ""
-        )
-        current_line = lines[target_line_index].rstrip()
-        next_line = (
-            lines[target_line_index + 1].rstrip()
-            if target_line_index < len(lines) - 1
-            else ""
-        )
+        lines = text.split("\n")
+        previous_line = lines[line_number - 2].rstrip() if line_number > 1 else ""
+        current_line = text[line_start:line_end].rstrip()
+        next_line = lines[line_number].rstrip() if line_number < len(lines) else ""
 
         return line_number, column_number, previous_line, current_line, next_line
 
